@@ -9,6 +9,7 @@ open FileIface
 open CtrIO
 open CbcIO
 open Exefs
+open Tmd
 open Driver_base
 
 let opt f = function None -> "-" | Some x -> f x
@@ -147,6 +148,22 @@ let run_exefs toks =
      | Err e -> "e:" ^ err_name e)
   | _ -> failwith "exefs args"
 
+let sha256 (d : coq_Z list) : coq_Z list = bytes_of_hex (query "sha256" [hex_of_bytes d])
+
+(* tmd <verify 0/1> <rawhex> *)
+let run_tmd toks =
+  match toks with
+  | [v; raw] ->
+    (match tmd_load sha256 (bool_of_tok v) (bytes_of_hex raw) with
+     | Ok t ->
+       "ok " ^ hex_of_z t.t_sigtype ^ " " ^ hex_of_bytes t.t_sig ^ " " ^ hex_of_bytes t.t_header ^ " I "
+       ^ String.concat " " (Stdlib.List.map (fun i -> hex_of_z i.i_off ^ "," ^ hex_of_z i.i_cnt ^ "," ^ hex_of_bytes i.i_hash) t.t_infos)
+       ^ " C "
+       ^ String.concat " " (Stdlib.List.map (fun c -> hex_of_bytes c.c_id ^ "," ^ hex_of_z c.c_index ^ "," ^ hex_of_z c.c_type
+                                             ^ "," ^ hex_of_z c.c_size ^ "," ^ hex_of_bytes c.c_hash) t.t_chunks)
+     | Err e -> "e:" ^ err_name e)
+  | _ -> failwith "tmd args"
+
 let dispatch (line : string) : string =
   match String.split_on_char ' ' (String.trim line) with
   | "engine" :: toks -> run_engine toks
@@ -154,6 +171,7 @@ let dispatch (line : string) : string =
   | "ctr" :: toks -> run_ctr toks
   | "cbc" :: toks -> run_cbc toks
   | "exefs" :: toks -> run_exefs toks
+  | "tmd" :: toks -> run_tmd toks
   | e :: _ -> failwith ("unknown entry " ^ e)
   | [] -> ""
 
